@@ -52,7 +52,27 @@ func (w *World) abstractInstant(u value) value {
 
 func (w *World) abstractNow() value {
 	t := w.newInput("now", 64)
+	w.run.inputs[len(w.run.inputs)-1].Env = true // natively time.Now is the real clock: it does not read the vector
 	tt := w.tt
+	if r := w.run; r.cursor >= len(r.trail) {
+		// Give the fresh variable a witness value that satisfies the constraints below (it occurs in no other
+		// constraint yet), so that the assumptions need no solver call. Code that reads the clock often
+		// (webdav memFS stamps every write) otherwise pays one query per time.Now.
+		if _, ok := r.witness[t.Name]; !ok {
+			v := uint64(1 << 40)
+			if w.clockLast != nil {
+				if lv := Eval(w.clockLast, r.witness, r.evalMemo); int64(lv) > int64(v) {
+					v = lv
+				}
+			}
+			nm := make(Model, len(r.witness)+1)
+			for k, x := range r.witness {
+				nm[k] = x
+			}
+			nm[t.Name] = v
+			r.witness = nm
+		}
+	}
 	lo := tt.Const(1<<40, 64)
 	if w.clockLast != nil {
 		w.assume(fromTerm(tt.Cmp(OpSle, w.clockLast, t)))
